@@ -184,6 +184,35 @@ func (nr *nativeRunner) build() {
 	testFile := filepath.Join(cache, "replay_test.go")
 	os.WriteFile(testFile, tb.Bytes(), 0o644)
 	repl[filepath.Join(pd, "zz_verif_replay_test.go")] = testFile
+	// the package's own _test.go files are blanked out (package clause only): the replay needs
+	// none of them, and their imports (flux stdlib, mocks, ...) only slow down or break the build
+	if ents, err := os.ReadDir(pd); err == nil {
+		for _, e := range ents {
+			if e.IsDir() || !strings.HasSuffix(e.Name(), "_test.go") {
+				continue
+			}
+			b, err := os.ReadFile(filepath.Join(pd, e.Name()))
+			if err != nil {
+				continue
+			}
+			clause := ""
+			for _, l := range strings.Split(string(b), "\n") {
+				if strings.HasPrefix(l, "package ") {
+					clause = strings.TrimSpace(l)
+					if i := strings.Index(clause, "//"); i >= 0 {
+						clause = strings.TrimSpace(clause[:i])
+					}
+					break
+				}
+			}
+			if clause == "" {
+				continue
+			}
+			blank := filepath.Join(cache, "blank_"+e.Name())
+			os.WriteFile(blank, []byte(clause+"\n"), 0o644)
+			repl[filepath.Join(pd, e.Name())] = blank
+		}
+	}
 	allStubs := map[string]string{}
 	for k, v := range nr.unit.Stubs {
 		allStubs[k] = v
